@@ -111,7 +111,7 @@ def tx_layout(case, ctx):
         elif kind == "coo":
             for k, p in enumerate(case["px"]):
                 cells = ["0"] * ncols
-                cells[0], cells[1] = str(p[0]), str(p[1])
+                cells[lay.get("bin1_id", 0)], cells[lay.get("bin2_id", 1)] = str(p[0]), str(p[1])
                 cells[lay["count"]] = str(p[2])
                 if "x" in lay:
                     cells[lay["x"]] = str(case["xvals"][k])
@@ -126,6 +126,9 @@ def tx_layout(case, ctx):
     else:
         args = ["load", "-f", "coo", _bins_arg(d, table), txt, out, "--temp-dir", d, "--chunksize", str(case["chunk"]),
                 "--field", f"count={lay['count'] + 1}"]
+        for nm in ("bin1_id", "bin2_id"):
+            if nm in lay:
+                args += ["--field", f"{nm}={lay[nm] + 1}"]
         if "x" in lay:
             args += ["--field", f"x={lay['x'] + 1}:dtype=int64"]
         if case["one_based"]:
@@ -151,7 +154,9 @@ def tx_roundtrip(case, ctx):
     import cooler
     d = ctx.subdir()
     table, mode = case["table"], case["mode"]
-    src = gen.place(os.path.join(d, "src.cool"), table, case["px"], mode, at=case.get("at"))
+    # chromosome names: the usual a, b, c or names whose natural / lexical order is not the order of the table
+    names = ["c2", "c10", "scaffold_7", "c1", "chrUn_x"] if case.get("names") == "unsorted" else gen.CHROMNAMES
+    src = gen.place(os.path.join(d, "src.cool"), table, case["px"], mode, at=case.get("at"), names=names)
     fmt = case["fmt"]
     dump_args = ["dump", src, "-k", str(case["chunk"])] + (["--join"] if fmt == "bg2" else [])
     if case["one_based"] and fmt == "coo":
@@ -165,7 +170,17 @@ def tx_roundtrip(case, ctx):
     with open(txt, "w") as f:
         f.write(out)
     dst = os.path.join(d, "dst.cool") + ("::" + case["at"] if case.get("at") else "")
-    args = ["load", "-f", fmt, _bins_arg(d, table), txt, dst, "--temp-dir", d, "--chunksize", str(case["chunk2"]),
+    if case.get("bins_spec") == "chromsizes":
+        # BINS given as <chromsizes file>:<bin size> (fixed-width tables only): the file lists the chromosomes in table order
+        cs = os.path.join(d, "chrom.sizes")
+        with open(cs, "w") as f:
+            for k, ln in enumerate(gen.chrom_lens(table)):
+                f.write(f"{names[k]}\t{ln}\n")
+        bins_arg = f"{cs}:{case['binsize']}"
+    else:
+        bins_arg = os.path.join(d, "bins.bed")
+        gen.bins_frame(table, names).to_csv(bins_arg, sep="\t", header=False, index=False)
+    args = ["load", "-f", fmt, bins_arg, txt, dst, "--temp-dir", d, "--chunksize", str(case["chunk2"]),
             "--max-merge", str(case.get("max_merge", 200))]
     if mode != "symm":
         args.append("--no-symmetric-upper")
@@ -175,7 +190,6 @@ def tx_roundtrip(case, ctx):
     if err:
         return {"err": "load:" + err}
     c = cooler.Cooler(dst)
-    names = gen.CHROMNAMES
     b = c.bins()[["chrom", "start", "end"]][:]
     return {"err": "", "px": _result(dst), "raw": project.raw_uri(dst), "mode": str(c.storage_mode),
             "table": [[names.index(str(ch)), int(s), int(e)] for ch, s, e in zip(b["chrom"], b["start"], b["end"])]}
